@@ -142,17 +142,7 @@ func (p *tlsConfigPool) LoadTLSConfig(config TLSConfig) (*tls.Config, error) {
 func (p *tlsConfigPool) updateCA(id string, caPem []byte) {
 	log := p.log.With("id", id)
 
-	// Load the TLS config
-	p.mu.Lock()
-	tlsConfig, ok := p.configs[id]
-	if !ok {
-		log.Error("couldn't update TLS config", errors.New("config not found"))
-		p.mu.Unlock()
-		return
-	}
-	p.mu.Unlock()
-
-	// Add the loaded CA to the TLS config
+	// Build the new cert pool with the loaded CA
 	certPool, err := x509.SystemCertPool()
 	if err != nil {
 		log.Error("error creating system cert pool", err)
@@ -164,17 +154,21 @@ func (p *tlsConfigPool) updateCA(id string, caPem []byte) {
 		return
 	}
 
-	// Update the TLS config
+	// Update the TLS config. Reloads of the same file may overlap (each change is notified in its own
+	// goroutine), so the config is only written while holding the lock.
+	p.mu.Lock()
+	defer p.mu.Unlock()
+
+	tlsConfig, ok := p.configs[id]
+	if !ok {
+		log.Error("couldn't update TLS config", errors.New("config not found"))
+		return
+	}
+
 	tlsConfig.RootCAs = certPool
 	log.Info("updated TLS config with new trusted certificate authority")
-
-	p.mu.Lock()
-	p.configs[id] = tlsConfig
-	p.mu.Unlock()
 }
 
-// tlsConfigEncoder is the internal representation of a TLSConfig.
-// It handles some useful methods for the TLSConfig.
 type tlsConfigEncoder struct {
 	SkipVerifyPeerCert       bool   `json:"skipVerifyPeerCert,omitempty"`
 	TrustedCA                string `json:"trustedCertificateAuthority,omitempty"`
